@@ -162,6 +162,16 @@ def _concat(wd, name, parts):
     return p
 
 
+def _cleanup_tlc_artefacts():
+    # TLC writes <Module>_TTrace_* next to the specification when a trace is rejected on an invariant
+    for fn in os.listdir(SPEC):
+        if "_TTrace_" in fn:
+            try:
+                os.remove(os.path.join(SPEC, fn))
+            except OSError:
+                pass
+
+
 def run(tier, seed):
     ck = vc.Check("C16", tier, seed, level="exploration")
     quick = tier == "quick"
@@ -240,6 +250,7 @@ def run(tier, seed):
                 os.remove(q)
             except OSError:
                 pass
+    _cleanup_tlc_artefacts()
     return ck.finish()
 
 
